@@ -290,7 +290,7 @@ def oracle_setsim(rng, n, stats, props, whiches=('jaccard', 'cosine', 'dice', 'o
             which, ts, L, R, lk, rk, la, ra, t, kw = fixed[it]
             if which not in whiches:
                 continue
-        elif rng.random() < adversarial_p and which in MEASURE_OF:
+        elif rng.random() < adversarial_p and (which in MEASURE_OF or which == 'overlap_coefficient'):
             c = adversarial_join_case(rng, which, stats)
             if c is None:
                 continue
@@ -339,7 +339,7 @@ def adversarial_join_case(rng, which, stats):
         for o in range(1, msize + 1):
             a, b = set(range(n)), set(range(o)) | set(range(1000, 1000 + msize - o))
             raw = SIMS[m](a, b)
-            if raw >= t and round(raw, 4) >= t:
+            if raw >= t and (round(raw, 4) >= t or which == 'overlap_coefficient'):      # (the overlap coefficient is not rounded)
                 cand = (raw - t, msize, o)
                 if best is None or cand < best:
                     best = cand
@@ -451,12 +451,38 @@ def filter_case(kind, d, ts, extra):
     return c
 
 
+def filter_empties_corpus(kinds):
+    """deterministic C09 cases for the filters: every filter x JACCARD/COSINE/DICE x allow_empty on (a) a left table in which
+    EVERY present value tokenizes to nothing (nothing gets indexed) and (b) a mixed one, against a right table with
+    token-less and ordinary values"""
+    out = []
+    shapes = [(['', '   ', None], ['', 'a b', '  ', 'c']), (['', 'a b', 'c d e', '  '], ['a b', '', 'c d', ' '])]
+    for kind in kinds:
+        if kind == 'overlap':
+            continue
+        for m, t in (('JACCARD', 0.5), ('COSINE', 0.7), ('DICE', 0.6)):
+            for ae in (True, False):
+                for lv, rv in shapes:
+                    ts = TokSpec('ws', return_set=True)
+                    f = FILTERS[kind](ts.obj, m, t, ae, False)
+                    d = {'kind': kind, 'measure': m, 'threshold': pyv(t), 'allow_empty': ae, 'allow_missing': False}
+                    L = pd.DataFrame({'id': list(range(1, len(lv) + 1)), 'attr': pd.Series(lv, dtype=object)})
+                    R = pd.DataFrame({'id': list(range(11, len(rv) + 11)), 'attr': pd.Series(rv, dtype=object)})
+                    out.append((kind, ts, f, d, L, R, 'id', 'id', 'attr', 'attr'))
+    return out
+
+
 def oracle_filters(rng, n, stats, props, kinds=('size', 'prefix', 'position', 'suffix', 'overlap')):
     """C04 safety (pair / tables / candset), C09 empties, C14 pruning promises, C06 candset row-wise + overlap exact"""
     v = []
     prev, earlier = None, []
-    for _ in range(n):
-        if prev is not None and rng.random() < 0.25:
+    fixed = filter_empties_corpus(kinds) if 'C09' in props else []
+    for it in range(n + len(fixed)):
+        forced = fixed[it] if it < len(fixed) else None
+        if forced is not None:
+            kind, ts, f, d = forced[:4]
+            prev_is_new, earlier = False, []
+        elif prev is not None and rng.random() < 0.25:
             # the SAME filter object on another pair of tables: a filter is a value (tokenizer, measure, threshold, flags);
             # whatever it did on earlier tables must not matter
             kind, ts, f, d = prev
@@ -482,6 +508,8 @@ def oracle_filters(rng, n, stats, props, kinds=('size', 'prefix', 'position', 's
         elif prev_is_new:
             ts.obj.set_return_set(True)
         L, R, lk, rk, la, ra = gen_join_frames(rng, ts, stats, big=rng.random() < 0.3)
+        if forced is not None:
+            L, R, lk, rk, la, ra = forced[4:]
         case0 = {'ltable': frame_to_case(L), 'rtable': frame_to_case(R), 'l_key': lk, 'r_key': rk, 'l_attr': la, 'r_attr': ra}
         if earlier:
             case0['earlier_tables_on_this_filter_object'] = list(earlier)
